@@ -12,7 +12,7 @@ import (
 
 func init() {
 	register("C19", runC19, propMeta{
-		Explanation: "Lockset analysis (must-hold locks per program point, with fork/join order and ownership) of gengine's own shared state against a guarded-by table that is itself checked for completeness. One obligation per (shared field, accessing function, read/write). Discharged by: the guarding mutex held at the access (GenginePool.freeGengines/runningLock, additionGengines/additionLock, ruleBuilder+clear+execModel/updateLock, DataContext.base/lockBase, the local-variable store/lockVars, Gengine.returnResult contents/Gengine.lock, builder-side Kc writes/buildLock, pool-side Kc writes/updateLock); construction (the object is still private to the function that allocates it); immutability after construction (no store outside the constructor: rbSlice, max, apis, additionNum, RuleBuilder.Dc, gengineWrapper.tag/gengine/addition); ownership between pop and put (gengineWrapper.rulebuilder, Gengine.returnResult field written by the executing goroutine before it forks); fork/join order for variables captured by goroutines (every store inside a goroutine literal to a variable of the enclosing function holds a local mutex; reads by the parent come after Wait — A4 under C05/C13/C18). Completeness: every field of the engine, builder, context and iter packages that is stored to anywhere must appear in the table. Undischarged on today's tree, reported as KNOWN-FINDING and not as holding: reads of gp.clear and gp.execModel by the request path without updateLock (D12b) and the unsynchronised read of the published RuleBuilder.Kc by executions (D12c). (L7) outside the compile step nothing writes into a compiled node, nor into the elements of a slice or the entries of a map held in one of its fields. Not decided: races on host data reached through injected pointers.",
+		Explanation: "Lockset analysis (must-hold locks per program point, with fork/join order and ownership) of gengine's own shared state against a guarded-by table that is itself checked for completeness. One obligation per (shared field, accessing function, read/write). Discharged by: the guarding mutex held at the access (GenginePool.freeGengines/runningLock, additionGengines/additionLock, ruleBuilder+clear+execModel/updateLock, DataContext.base/lockBase, the local-variable store/lockVars, Gengine.returnResult contents/Gengine.lock, builder-side Kc writes/buildLock, pool-side Kc writes/updateLock); construction (the object is still private to the function that allocates it); immutability after construction (no store outside the constructor: rbSlice, max, apis, additionNum, RuleBuilder.Dc, gengineWrapper.tag/gengine/addition); ownership between pop and put (gengineWrapper.rulebuilder, Gengine.returnResult field written by the executing goroutine before it forks); fork/join order for variables captured by goroutines (every store inside a goroutine literal to a variable of the enclosing function holds a local mutex; reads by the parent come after Wait — A4 under C05/C13/C18). Completeness: every field of the engine, builder, context and iter packages that is stored to anywhere must appear in the table. Undischarged on today's tree, reported as KNOWN-FINDING and not as holding: reads of gp.clear and gp.execModel by the request path without updateLock (D12b) and the unsynchronised read of the published RuleBuilder.Kc by executions (D12c). (L8) the happens-before obligations of the fork/join rule for every execute method that starts goroutines and for the conc statement: the counter is raised before a goroutine starts, every goroutine counts down exactly once, after its work and as the last thing it does (nothing shared is written, no lock taken after Done()), the shared error list is appended to under its mutex, and the starter passes Wait() before it reads or returns. (L7) outside the compile step nothing writes into a compiled node, nor into the elements of a slice or the entries of a map held in one of its fields. Not decided: races on host data reached through injected pointers.",
 		Assumptions: []string{"Go memory model: mutex, go statement and WaitGroup edges", "host objects are the host's responsibility"},
 		Trusted:     commonTrusted,
 	})
@@ -514,6 +514,23 @@ func runC19(c *Ctx) {
 	// memory behind the list) once it may be published (the argument of C07-U2)
 	c.ruleU2("L7-published-rule-set-immutable")
 	c.Min("L7-published-rule-set-immutable", 20)
+	// L8: what a goroutine writes is read by its starter only after the join. The join orders the two
+	// only if the counter is raised before the goroutine starts, every goroutine counts down exactly
+	// once, after its work and as the last thing it does, and the starter passes Wait before it
+	// reads: the happens-before obligations of the fork/join rule (not its one-worker shapes).
+	hb := map[string]bool{"add": true, "add-before": true, "barrier": true, "count": true, "done": true, "done-after-work": true,
+		"done-last": true, "done-once": true, "errlist-locked": true, "scope": true, "wait": true, "literal": true}
+	c.only = func(key string) bool { return hb[key[strings.LastIndex(key, "/")+1:]] }
+	for _, fn := range c.engineExecFns() {
+		if m := c.engModel(fn); len(m.gos) > 0 {
+			c.ruleA4("L8-joined-before-read", fn, isRuleExec, m.errList())
+		}
+	}
+	if cf := c.Fn("internal/base", "ConcStatement", "Evaluate"); cf != nil {
+		c.ruleA4("L8-joined-before-read", cf, isBaseEvaluate, c.engModel(cf).errList())
+	}
+	c.only = nil
+	c.Min("L8-joined-before-read", 100)
 	if n == 0 {
 		c.Lost("L5-captured-writes-locked", "stores to captured variables inside goroutines")
 	}
